@@ -68,7 +68,7 @@ def dispatch_table(ctx, fn_path, adt):
                 for n in callee_names(tt):
                     if n.startswith(DEC + 'parse_') and is_parser_sig(ctx.F.fns.get(n)) and parser is None:
                         parser = n
-        ent = {'parser': parser, 'bb': b}
+        ent = {'parser': parser, 'bb': b, 'blocks': set(blocks), 'host': B}
         if parser is not None and parser not in (DEC + 'parse_term', DEC + 'parse_term_borrowed'):
             PB = P.B(parser)
             sigs, tr = signature(PB, subcalls=SUBCALLS_R)
@@ -84,6 +84,14 @@ def dispatch_table(ctx, fn_path, adt):
                                                    and (st['pl']['l'] == 0 or 0 in B.derived_locals([st['pl']['l']])) for st in B.blocks[bb]['s'])]
             ent['error_arm'] = not ok_blocks
             ent['sigs'] = {tuple((e[1],) if e[0] in ('r', 'w') else (str(e[0]),) for e in evs)}
+            if len(evs) > 1 or any(e[0] in ('r', 'w') and e[1] == 'bytes' for e in evs):
+                # an arm that reads several things (a parser spliced into the dispatcher): the events in path order, with their references
+                try:
+                    sg, _tr = signature(B, subcalls=SUBCALLS_R, start=b, region=blocks)
+                    if sg:
+                        ent['sigs'] = sg
+                except Exception:
+                    pass
             vs = set()
             for bb in blocks:
                 for st in B.blocks[bb]['s']:
